@@ -1,5 +1,5 @@
 (* Draw/Meta.v -- model of utils.GetHtmlMetadata (/repo/utils/html.go:316-391)
-   and of the metadata calls of Document.Write (document.go:511-531).
+   and of the metadata calls of Document.Write (document.go:520-540).
 
    The DOM is a recorded input (x/net/html is trusted): the harness dumps, in
    document order, the <title>, <meta> and <link rel=attachment> elements of
